@@ -66,8 +66,12 @@ func (t TypeStruct) RepresentationBehavior() datamodel.Kind {
 	}
 }
 func (t TypeEnum) RepresentationBehavior() datamodel.Kind {
-	// TODO: this should have a representation strategy switch too; sometimes that will indicate int representation behavior.
-	return datamodel.Kind_String
+	switch t.representation.(type) {
+	case EnumRepresentation_Int:
+		return datamodel.Kind_Int
+	default:
+		return datamodel.Kind_String
+	}
 }
 func (t TypeAny) RepresentationBehavior() datamodel.Kind {
 	return datamodel.Kind_Invalid // TODO: what can we possibly do here?
